@@ -311,7 +311,7 @@ struct VarRunner {
             // get_if of a null pointer is a null pointer ([variant.get]); visit of no variant at all calls f();
             // etl::visit also accepts a NON-variant argument and hands it through as a one-alternative operand
             // (std::visit does not: the reference leg calls the visitor with the active alternative and the value);
-            // etl::swap / std::swap of two arrays of variants swaps element-wise (the array overload of swap.hpp)
+            // etl::swap / std::swap of the arrays {a, b} and {b, a} swaps element-wise (the array overload of swap.hpp)
             V* np        = nullptr;
             V const* cnp = nullptr;
             o.tok("gn").b(Lib::template get_if<0>(np) == nullptr).b(Lib::template get_if<N - 1>(cnp) == nullptr);
@@ -326,7 +326,7 @@ struct VarRunner {
                 std::visit([&](auto const& l, auto const& r) { fn(l, 7L, r); }, std::as_const(a), std::as_const(b));
             }
             V arr1[2] = {a, b};
-            V arr2[2] = {b, b};
+            V arr2[2] = {b, a};
             Lib::swap(arr1, arr2);
             o.tok("sa");
             state(o, arr1[0]);
